@@ -207,6 +207,78 @@ fn c04_diff<'a, T: DiffableStr + ?Sized>(
     if per_op != all {
         return Err("iter_all_changes differs from the concatenation of iter_changes over ops".into());
     }
+    // the same sequence however the iterator is consumed: k calls of next(), then a fold-based
+    // consumer (fold / for_each / count / last), nth, skip, step_by
+    if all.len() <= 10 {
+        for k in 0..=all.len() {
+            let mut it = diff.iter_all_changes();
+            for _ in 0..k {
+                it.next();
+            }
+            let rest = it.fold(Vec::new(), |mut v, c| {
+                v.push(c);
+                v
+            });
+            if rest[..] != all[k..] {
+                return Err(format!(
+                    "iter_all_changes: after {} next() calls, fold() yields {} changes, expected the remaining {}",
+                    k,
+                    rest.len(),
+                    all.len() - k
+                ));
+            }
+            let mut it = diff.iter_all_changes();
+            for _ in 0..k {
+                it.next();
+            }
+            if it.count() != all.len() - k {
+                return Err(format!("iter_all_changes: after {} next() calls, count() is wrong", k));
+            }
+            let mut it = diff.iter_all_changes();
+            for _ in 0..k {
+                it.next();
+            }
+            let mut seen = vec![];
+            it.for_each(|c| seen.push(c));
+            if seen[..] != all[k..] {
+                return Err(format!("iter_all_changes: after {} next() calls, for_each() yields a different sequence", k));
+            }
+            let mut it = diff.iter_all_changes();
+            let got = it.nth(k);
+            if got.as_ref() != all.get(k) {
+                return Err(format!("iter_all_changes: nth({}) gives {:?}, expected {:?}", k, got.map(|c| c.tag()), all.get(k).map(|c| c.tag())));
+            }
+            let tail: Vec<_> = it.collect();
+            let want_tail: &[_] = if k + 1 <= all.len() { &all[k + 1..] } else { &[] };
+            if tail[..] != *want_tail {
+                return Err(format!("iter_all_changes: after nth({}) the rest differs", k));
+            }
+            let mut pk = diff.iter_all_changes().peekable();
+            for _ in 0..k.min(2) {
+                pk.next();
+            }
+            let _ = pk.peek();
+            let rest: Vec<_> = pk.fold(Vec::new(), |mut v, c| {
+                v.push(c);
+                v
+            });
+            if rest[..] != all[k.min(2)..] {
+                return Err("iter_all_changes: peek() followed by fold() loses changes".into());
+            }
+        }
+        if diff.iter_all_changes().last().as_ref() != all.last() {
+            return Err("iter_all_changes: last() differs".into());
+        }
+        let stepped: Vec<_> = diff.iter_all_changes().step_by(2).collect();
+        let want: Vec<_> = all.iter().cloned().step_by(2).collect();
+        if stepped != want {
+            return Err("iter_all_changes: step_by(2) differs".into());
+        }
+        let (lo, hi) = diff.iter_all_changes().size_hint();
+        if lo > all.len() || hi.map_or(false, |h| h < all.len()) {
+            return Err(format!("iter_all_changes: size_hint ({}, {:?}) excludes the real length {}", lo, hi, all.len()));
+        }
+    }
     Ok((count, fp.0))
 }
 
@@ -602,6 +674,75 @@ pub fn c04_run(cfg: &RunCfg) -> CheckReport {
     rep
 }
 
+/// A text longer than 2^32 bytes through the remapping helpers (thorough tier only; needs
+/// about 10 GiB of memory): byte offsets must not be narrowed anywhere.
+fn c17_beyond_4gib() -> Result<u64, String> {
+    use similar::utils;
+    let mut old = "w".repeat(1usize << 32);
+    old.push_str(" tail end");
+    let new = String::from("x tail end");
+    let mut n = 0u64;
+    for which in 0..2 {
+        let name = ["utils::diff_words", "TextDiffRemapper over diff_slices"][which];
+        let res: Vec<(ChangeTag, &str)> = subject(|| {
+            if which == 0 {
+                utils::diff_words(Algorithm::Myers, &old[..], &new[..])
+            } else {
+                let o: Vec<&str> = vec![&old[..1usize << 32], " ", "tail", " ", "end"];
+                let nn: Vec<&str> = vec!["x", " ", "tail", " ", "end"];
+                let d = TextDiff::from_slices(&o, &nn);
+                let r = TextDiffRemapper::from_text_diff(&d, &old[..], &new[..]);
+                d.ops().iter().flat_map(|op| r.iter_slices(op)).collect()
+            }
+        })
+        .map_err(|p| format!("{} on a text of 2^32+9 bytes: panic: {}", name, p))?;
+        let (mut oo, mut nn) = (0usize, 0usize);
+        for (tag, s) in &res {
+            if s.is_empty() {
+                return Err(format!("{} on a text of 2^32+9 bytes: empty {:?} slice", name, tag));
+            }
+            let in_old = *tag != ChangeTag::Insert;
+            let in_new = *tag != ChangeTag::Delete;
+            if in_old {
+                if !old[oo..].starts_with(s) {
+                    return Err(format!("{} on a text of 2^32+9 bytes: {:?} slice of {} bytes is not the old text at byte {}", name, tag, s.len(), oo));
+                }
+                oo += s.len();
+            }
+            if in_new {
+                if !new[nn..].starts_with(s) {
+                    return Err(format!("{} on a text of 2^32+9 bytes: {:?} slice of {} bytes is not the new text at byte {}", name, tag, s.len(), nn));
+                }
+                nn += s.len();
+            }
+            n += 1;
+        }
+        if oo != old.len() || nn != new.len() {
+            return Err(format!(
+                "{} on a text of 2^32+9 bytes: slices cover {} of {} old bytes and {} of {} new bytes",
+                name,
+                oo,
+                old.len(),
+                nn,
+                new.len()
+            ));
+        }
+    }
+    Ok(n)
+}
+
+fn mem_available_gib() -> u64 {
+    std::fs::read_to_string("/proc/meminfo")
+        .ok()
+        .and_then(|s| {
+            s.lines()
+                .find(|l| l.starts_with("MemAvailable:"))
+                .and_then(|l| l.split_whitespace().nth(1).and_then(|x| x.parse::<u64>().ok()))
+        })
+        .map(|kb| kb >> 20)
+        .unwrap_or(0)
+}
+
 pub fn c17_run(cfg: &RunCfg) -> CheckReport {
     let mut rep = CheckReport::new(
         "exploration",
@@ -609,6 +750,22 @@ pub fn c17_run(cfg: &RunCfg) -> CheckReport {
     );
     rep.assume("pointer identity is checked on the byte pointers of the returned slices against the original text buffers");
     run_pairs(cfg, &mut rep, c17_pair);
+    if cfg.tier == Tier::Thorough && !rep.has_violation() {
+        let avail = mem_available_gib();
+        if avail >= 20 {
+            let ex = explore(cfg, 1, |_, acc| match c17_beyond_4gib() {
+                Ok(n) => {
+                    acc.sample(json!({"text_bytes": (1u64 << 32) + 9, "slices": n}));
+                    acc.ok(true, n, n);
+                    acc.ok(true, n, n + 1);
+                }
+                Err(e) => acc.violation(|| (json!({"beyond_4gib": true}), e)),
+            });
+            rep.part("text-beyond-4GiB", json!({"old_bytes": (1u64 << 32) + 9}), ex);
+        } else {
+            rep.extra.insert("text_beyond_4gib".into(), json!(format!("skipped: only {} GiB of memory available, 20 needed", avail)));
+        }
+    }
     rep
 }
 
@@ -619,6 +776,9 @@ pub fn c04_replay(case: &Value) -> Result<String, String> {
 }
 
 pub fn c17_replay(case: &Value) -> Result<String, String> {
+    if case.get("beyond_4gib").is_some() {
+        return c17_beyond_4gib().map(|n| format!("holds; {} slices", n));
+    }
     let old = parse_bytes(case, "old")?;
     let new = parse_bytes(case, "new")?;
     c17_pair(&old, &new).map(|r| format!("holds; {} slices, fingerprint {:x}", r.1, r.2))
